@@ -18,6 +18,7 @@ Contains the Decoder Loop Filtering related functions*/
 
 #include "EbSvtAv1Dec.h"
 #include "EbDecHandle.h"
+#include "EbVerifHooks.h"
 #include "EbObuParse.h"
 #include "EbDecUtils.h"
 #include "EbDeblockingCommon.h"
@@ -728,6 +729,7 @@ void dec_loop_filter_row(EbDecHandle *dec_handle_ptr, EbPictureBufferDesc *recon
         if (y_sb_index) {
             while (*sb_lf_completed_in_prev_row < MIN((x_sb_index + 2), pic_width_in_sb - 1))
                 ;
+            SVT_VERIF_HB_ACQUIRE(sb_lf_completed_in_prev_row);
         }
         /*LF function for a SB*/
         dec_loop_filter_sb(dec_handle_ptr,
@@ -743,6 +745,7 @@ void dec_loop_filter_row(EbDecHandle *dec_handle_ptr, EbPictureBufferDesc *recon
                            end_of_row_flag,
                            sb_info->sb_delta_lf);
         /* Update Top-Right Sync*/
+        SVT_VERIF_HB_RELEASE(sb_lf_completed_in_row);
         *sb_lf_completed_in_row = x_sb_index;
     }
 }
